@@ -121,9 +121,9 @@ def run_children(rc):
 
 def same(d1, d2):
     if d1[0] != d2[0]:
-        return f"{d1[0]} vs {d2[0]}"
+        return f"{d1[0]} vs {d2[0]} ({[d for d in (d1, d2) if d[0] == 'exc'][0][1:]})"
     if d1[0] == "exc":
-        return None if d1[1] == d2[1] else f"exception {d1[1]} vs {d2[1]}"
+        return None if d1[1] == d2[1] else f"exception {d1[1]} ({d1[2] if len(d1) > 2 else ''}) vs {d2[1]} ({d2[2] if len(d2) > 2 else ''})"
     if len(d1[1]) != len(d2[1]):
         return "number of outputs"
     for a, b in zip(d1[1], d2[1]):
